@@ -188,7 +188,26 @@ def pair_loops(fi):
         return [violation("PAIRS", fi, role, "inner loop iterates `%s`, expected annotations[%s + 1:]" % (it, iv), inner[0])]
     if not any(x is inner[0] for x in ast.walk(outer[0])):
         return [violation("PAIRS", fi, role, "inner loop is not nested in the outer loop", inner[0])]
-    return [holds("PAIRS", fi, role, "outer %s / inner %s" % (unparse(outer[0].iter.args[0]), it), inner[0])]
+    out = [holds("PAIRS", fi, role, "outer %s / inner %s" % (unparse(outer[0].iter.args[0]), it), inner[0])]
+    # no early exit: rows of an example are in table order (not sorted by coordinate), so leaving a pair loop
+    # before its last element drops pairs that direct enumeration counts
+    role2 = "the pair loops run to completion (no break / return / raise inside them: rows are not ordered by coordinate)"
+    exits = []
+    for x in walk_no_nested(outer[0]):
+        if isinstance(x, (ast.Break, ast.Return)):
+            exits.append(x)
+    sorts = [c for c in ast.walk(fi.node) if isinstance(c, ast.Call) and
+             (dotted(c.func) in ("sorted", "numpy.argsort", "torch.argsort", "numpy.sort", "torch.sort", "numpy.lexsort") or
+              (isinstance(c.func, ast.Attribute) and c.func.attr in ("sort", "argsort", "sort_values")))]
+    if exits and sorts:
+        out.append(unrecognised("PAIRS", fi, role2, "early exit `%s` at line %d together with a sort `%s`: an ordered scan needs re-confirmation"
+                                % (unparse(exits[0]), exits[0].lineno, unparse(sorts[0])[:60]), exits[0]))
+    elif exits:
+        out.append(violation("PAIRS", fi, role2, "`%s` at line %d leaves a pair loop early; the rows of an example are in table order, so "
+                             "later rows that pair with the current one are never visited" % (unparse(exits[0]), exits[0].lineno), exits[0]))
+    else:
+        out.append(holds("PAIRS", fi, role2, "no break/return in the pair loops; rows are never sorted", outer[0]))
+    return out
 
 
 def count_rules(repo):
